@@ -36,18 +36,18 @@ CHECKS = {
     "C08": dict(pkg="./sim/c08", race=False, quick=600000, thorough=30000000),
     "C09": dict(pkg="./sim/c09", race=False, quick=4000000, thorough=200000000, checkptr=True, aslimit=True),
     "C10": dict(pkg="./sim/c10", race=True, quick=120000, thorough=6000000,
-                autoyield=dict(call="simPoint(%q, nil)", files=["cache/data.go"])),
+                autoyield=dict(call="simPoint(%q, nil)", files=["cache/data.go"], simsync="cache:cache")),
     "C11": dict(pkg="./sim/c11", race=False, quick=3000000, thorough=150000000),
     "C15": dict(pkg="./sim/c15", race=False, quick=6000000, thorough=200000000),
     "C17": dict(pkg="./sim/c17", race=True, quick=120000, thorough=6000000,
-                autoyield=dict(call="simPoint(%q)", files=["syncutil/sema.go", "syncutil/onceconstructor.go"])),
+                autoyield=dict(call="simPoint(%q)", files=["syncutil/sema.go", "syncutil/onceconstructor.go"], simsync="syncutil:syncutil")),
     "C18": dict(pkg="./sim/c18", race=True, quick=200000, thorough=8000000,
-                autoyield=dict(call="simPoint(%q)", simfile="service:service",
+                autoyield=dict(call="simPoint(%q)", simfile="service:service", simsync="service:service",
                                files=["service/signal.go", "service/refreshworker.go"])),
     "C19": dict(pkg="./sim/c19", race=True, quick=60000, thorough=2400000,
-                autoyield=dict(call="simPoint(%q, nil)", files=["logutil/slogutil/jsonhybrid.go"])),
+                autoyield=dict(call="simPoint(%q, nil)", files=["logutil/slogutil/jsonhybrid.go"], simsync="logutil/slogutil:slogutil")),
     "C20": dict(pkg="./sim/c20", race=True, quick=40000, thorough=1200000,
-                autoyield=dict(call="simPoint(%q)", simfile="netutil/httputil:httputil",
+                autoyield=dict(call="simPoint(%q)", simfile="netutil/httputil:httputil", simsync="netutil/httputil:httputil",
                                files=["netutil/httputil/logmw.go", "netutil/httputil/httputil.go",
                                       "netutil/httputil/responsewriter.go"])),
 }
@@ -110,6 +110,11 @@ def build(check_id, cfg, repo, tmp):
         if ay.get("simfile"):
             d, pkg = ay["simfile"].split(":")
             opts += ["-simfile", os.path.join(repo, d) + ":" + pkg]
+        if ay.get("simsync"):
+            # sync.Mutex / sync.RWMutex in the listed files become simulated
+            # mutexes (scheduler state), see sim/kernel/simsync.go.
+            d, pkg = ay["simsync"].split(":")
+            opts += ["-simsync", os.path.join(repo, d) + ":" + pkg]
         p = subprocess.run(
             [go_bin(), "run", "-modfile=" + modfile, "./tools/autoyield"] + opts + files,
             cwd=VERIF, env=go_env(), stdout=subprocess.PIPE, stderr=subprocess.PIPE, text=True)
